@@ -18,6 +18,7 @@
 
 #include "interrogate_interface.h"
 #include "interrogate_request.h"
+#include "interrogateDatabase.h"
 #include "load_dso.h"
 #include "pnotify.h"
 #include "panda_getopt_long.h"
@@ -182,6 +183,18 @@ int write_python_table_native(std::ostream &out) {
         dependencies[library_name];
       }
     // }
+  }
+
+  // A library may contribute nothing but manifest constants; it has neither
+  // functions nor global types, but its BuildInstants still has to be called.
+  InterrogateDatabase *idb = InterrogateDatabase::get_ptr();
+  int num_manifests = interrogate_number_of_manifests();
+  for (int mi = 0; mi < num_manifests; mi++) {
+    const InterrogateManifest &manifest =
+      idb->get_manifest(interrogate_get_manifest(mi));
+    if (manifest.has_library_name()) {
+      dependencies[manifest.get_library_name()];
+    }
   }
 
   for (int ti = 0; ti < interrogate_number_of_global_types(); ti++) {
